@@ -50,6 +50,8 @@ def check_clause(job, env):
         return (True, f"raised {type(ex).__name__}: {str(ex)[:120]}") if job.get("no_raise_expected", True) else (None, "raised")
     if clause == "no-raise":
         return False, "did not raise"
+    if fam == "compile":
+        return check_compile(job, env)
     if fam == "simplify":
         op = job["op"]
         try:
@@ -93,6 +95,45 @@ def check_clause(job, env):
         ok = poly_degree_at_most(e, int(res), names, rng)
         return (not ok), f"reported degree {res} but the formula is not a polynomial of total degree <= {res}"
     return None, "unknown family"
+
+
+def check_compile(job, env):
+    """value clause of the compiler family: f(x) == den(e) for an ordering/superset of the variables."""
+    from optyx.core.expressions import Variable
+    from optyx.core import compiler
+    e = build(job["args"][0])
+    names = sorted(variables_of(e))
+    order = job.get("order") or (list(reversed(names)) + ["zz_extra"])
+    for n in names:
+        if n not in order:
+            order.append(n)
+    vs = [build({"cls": "Variable", "name": n}) for n in order]
+    fnkey = job["fn"]
+    clause = job["clause"].split("#")[0]
+    try:
+        if fnkey.endswith(":_build_evaluator") or fnkey.endswith(":_build_evaluator_iterative"):
+            f = resolve(fnkey)(e, {v.name: i for i, v in enumerate(vs)})
+        elif fnkey.endswith(":_compile_cached"):
+            idx = {v.name: i for i, v in enumerate(vs)}
+            f = compiler._compile_cached(e, tuple(v.name for v in vs), tuple(idx.items()))
+        else:
+            f = compiler.compile_expression(e, vs)
+    except Exception as ex:
+        return True, f"compilation raised {type(ex).__name__}: {str(ex)[:120]}"
+    if clause in ("no-raise",) or "hashable" in clause:
+        return False, "compiled"
+    x = np.array([float(env.get(n, 0.3)) for n in order])
+    try:
+        exp = den(e, {n: float(x[i]) for i, n in enumerate(order)})
+    except Undefined:
+        return None, "outside domain"
+    try:
+        got = float(np.asarray(f(x)).item())
+    except Exception as ex:
+        return True, f"compiled callable raised {type(ex).__name__}: {str(ex)[:100]}"
+    if not math.isfinite(exp):
+        return None, "outside domain"
+    return (not close(got, exp)), f"compiled value {got}, formula value {exp} at {dict(zip(order, x.tolist()))}"
 
 
 def env_of(e, env, extra=None):
